@@ -5,8 +5,8 @@ From Coq Require Import Reals QArith List.
 From Coquelicot Require Import Coquelicot.
 From OV.base Require Import Num.
 From OV.gen Require Import Gen_ScalarRootFind Gen_Hardening Gen_TensorMath Gen_J2Flow Gen_J2Elastic.
-From OV.model Require Import M_C17 M_C09.
-From OV.proofs Require Import L_C17 L_C09.
+From OV.model Require Import M_C17 M_C09 M_C09T.
+From OV.proofs Require Import L_C17 L_C09 L_C09r L_C09T.
 Import ListNotations.
 Local Open Scope R_scope.
 
@@ -97,20 +97,144 @@ Theorem C09_power_law_monotone : forall Y0 n eps0, 0 <= Y0 -> 0 < n -> 0 < eps0 
   forall x y, 0 < 1 + x / eps0 -> x <= y -> @h_flow R NumR (PowerLaw Y0 n eps0) x <= @h_flow R NumR (PowerLaw Y0 n eps0) y.
 Proof. exact power_flow_monotone. Qed.
 
+(* ---------- rate sensitivity (power-law kinetic potential regenerated from Hardening.power_law_rate_sensitivity) ---------- *)
+(* the overstress of the scalar model is the derivative of the regenerated kinetic potential for eqps > eqps_old ... *)
+Theorem C09_rate_flow : forall Sr m ed0 eo dt, 0 < m -> 0 < dt -> 0 < ed0 -> forall e, eo < e ->
+  is_derive (fun x => @k_energy R NumR (Rate Sr m ed0) x eo dt) e (@k_flow R NumR (Rate Sr m ed0) e eo dt).
+Proof. exact rate_flow_derive. Qed.
+(* ... at eqps_old itself (where the potential is not defined to the left and the overstress has an infinite slope) the one-sided
+   difference quotient of the potential tends to the model's overstress there, which is 0 *)
+Theorem C09_rate_flow_at_old : forall Sr m ed0 eo dt, 0 < m -> 0 < dt -> 0 < ed0 ->
+  @k_flow R NumR (Rate Sr m ed0) eo eo dt = 0 /\
+  forall eps, 0 < eps -> exists delta, 0 < delta /\ forall e, eo < e < eo + delta ->
+    Rabs ((@k_energy R NumR (Rate Sr m ed0) e eo dt - @k_energy R NumR (Rate Sr m ed0) eo eo dt) / (e - eo)
+          - @k_flow R NumR (Rate Sr m ed0) eo eo dt) < eps.
+Proof. exact rate_flow_at_old_pack. Qed.
+(* the slope handed to the Newton step is the derivative of the overstress *)
+Theorem C09_rate_slope : forall Sr m ed0 eo dt, 0 < m -> 0 < dt -> 0 < ed0 -> forall e, eo < e ->
+  is_derive (fun x => @k_flow R NumR (Rate Sr m ed0) x eo dt) e (@k_slope R NumR (Rate Sr m ed0) e eo dt).
+Proof. exact rate_slope_derive. Qed.
+(* monotone (strictly for a positive rate-sensitivity stress) and non-negative on eqps >= eqps_old *)
+Theorem C09_rate_monotone : forall Sr m ed0 eo dt, 0 < m -> 0 < dt -> 0 < ed0 ->
+  (forall x y, 0 <= Sr -> eo <= x -> x <= y -> @k_flow R NumR (Rate Sr m ed0) x eo dt <= @k_flow R NumR (Rate Sr m ed0) y eo dt) /\
+  (forall x y, 0 < Sr -> eo <= x -> x < y -> @k_flow R NumR (Rate Sr m ed0) x eo dt < @k_flow R NumR (Rate Sr m ed0) y eo dt) /\
+  (forall x, 0 <= Sr -> eo <= x -> 0 <= @k_flow R NumR (Rate Sr m ed0) x eo dt).
+Proof. exact rate_monotone_pack. Qed.
+
+(* the concrete updates (model delta_eqps with the regenerated tolerance constant) for the three laws with admissible constants,
+   no monotonicity premise left: rate independent -- irreversible, yield consistent, idempotent; *)
+Theorem C09_update_rate_independent_laws : forall (l : @law R) mu s eo dt d, 0 < mu -> law_admissible l eo ->
+  @delta_eqps R NumR l NoRate mu s eo dt = Some d ->
+  0 <= d /\ (s - 3 * mu * d) - @h_flow R NumR l (eo + d) <= @tolY R NumR l /\
+  (0 < d -> Rabs ((s - 3 * mu * d) - @h_flow R NumR l (eo + d)) <= @tolY R NumR l) /\
+  @delta_eqps R NumR l NoRate mu (s - 3 * mu * d) (eo + d) dt = Some 0.
+Proof. exact delta_eqps_norate_spec. Qed.
+(* rate sensitive -- irreversible and yield consistent, the yield surface being flow stress + overstress at the rate Delta eqps / dt *)
+Theorem C09_update_rate_sensitive_laws : forall (l : @law R) Sr m ed0 mu s eo dt d,
+  0 < mu -> law_admissible l eo -> 0 <= Sr -> 0 < m -> 0 < dt -> 0 < ed0 ->
+  @delta_eqps R NumR l (Rate Sr m ed0) mu s eo dt = Some d ->
+  0 <= d /\ (s - 3 * mu * d) - (@h_flow R NumR l (eo + d) + @k_flow R NumR (Rate Sr m ed0) (eo + d) eo dt) <= @tolY R NumR l /\
+  (0 < d -> Rabs ((s - 3 * mu * d) - (@h_flow R NumR l (eo + d) + @k_flow R NumR (Rate Sr m ed0) (eo + d) eo dt)) <= @tolY R NumR l).
+Proof. exact delta_eqps_rate_laws. Qed.
+(* variational with rate sensitivity: the potential is differentiable only on the open half line eqps > eqps_old and right-continuous
+   at eqps_old; a (nearly) stationary point still minimises it over eqps >= eqps_old (regenerated hardening + kinetic energies) *)
+Theorem C09_variational_rate_sensitive_laws : forall (l : @law R) Sr m ed0 mu dt s eo es delta,
+  0 < mu -> law_admissible l eo -> 0 <= Sr -> 0 < m -> 0 < dt -> 0 < ed0 -> eo <= es ->
+  Rabs (- s + 3 * mu * (es - eo) + (@h_flow R NumR l es + @k_flow R NumR (Rate Sr m ed0) es eo dt)) <= delta ->
+  forall e, eo <= e ->
+    @potential R NumR (fun x => @h_energy R NumR l x + @k_energy R NumR (Rate Sr m ed0) x eo dt) mu s eo es - delta * Rabs (e - es)
+    <= @potential R NumR (fun x => @h_energy R NumR l x + @k_energy R NumR (Rate Sr m ed0) x eo dt) mu s eo e.
+Proof. exact potential_min_rate_laws. Qed.
+
+(* ---------- tensor level, small-deformation kinematics (model/M_C09T.v: regenerated linear strain and flow direction,
+   state = (eqps, plastic strain), stateNew = stateOld + (Delta eqps, Delta eqps * N)) ---------- *)
+(* scalar <-> tensor: the residual the code hands to the root finder is the derivative (DelT; Newton slope D2T) of the regenerated
+   deviatoric energy along the return direction plus the flow stress; whatever functions deliver those derivatives, the update
+   computed with them IS the scalar update at the trial Mises stress 2 mu dev(E):N *)
+Theorem C09_tensor_residual_is_scalar_residual : forall (Yf dYf DelT D2T : R -> R) (mu tol eo : R) (E : @m9 R),
+  (forall e, is_derive (fun x => @elastic_along R NumR mu E eo x) e (DelT e)) -> (forall e, is_derive DelT e (D2T e)) ->
+  @delta_eqps_res R NumR (fun e => DelT e + Yf e) (fun e => D2T e + dYf e) (Yf eo) mu tol (trial_mises mu E) eo
+  = @delta_eqps_gen R NumR Yf dYf mu tol (trial_mises mu E) eo.
+Proof. exact tensor_residual_update. Qed.
+(* along ANY history of (displacement gradient, time step), all three laws, with or without rate sensitivity: eqps never decreases and
+   the plastic strain keeps its trace (exactly isochoric; no assumption on a matrix function is needed for these kinematics) *)
+Theorem C09_small_history_invariants : forall (l : @law R) (r : @rate R) mu, 0 < mu -> rate_admissible r ->
+  forall (steps : list (@m9 R * R)) (st : @tstate R) sts, law_admissible l (fst st) -> List.Forall (fun p => 0 < snd p) steps ->
+  @tensor_history R NumR l r mu steps st = Some sts ->
+  forall k, (k < length sts)%nat ->
+    fst (nth k (st :: sts) st) <= fst (nth (S k) (st :: sts) st) /\ tr9 (snd (nth (S k) (st :: sts) st)) = tr9 (snd st).
+Proof. exact tensor_history_invariants. Qed.
+(* committing the state (rate-independent laws; deviators above the code's flow-direction threshold): at the same displacement
+   gradient the committed state gives (i) the elastic strain the update produced, (ii) a stress on or inside the yield surface to the
+   solver tolerance, in tensor terms, (iii) no further change (tensor-level idempotence), (iv) the same energy density *)
+Theorem C09_small_commit_invariance : forall (l : @law R) mu kappa dt dt' H (st st' : @tstate R),
+  0 < mu -> law_admissible l 0 -> 0 < law_Y0 l -> 0 <= fst st ->
+  nondegenerate (strain_small H st) -> nondegenerate (strain_small H st') ->
+  @state_new_small R NumR l NoRate mu dt H st = Some st' ->
+  strain_small H st' = sub9 (strain_small H st) (smul9 (fst st' - fst st) (flowdir (strain_small H st))) /\
+  trial_mises mu (strain_small H st') - @h_flow R NumR l (fst st') <= @tolY R NumR l /\
+  @state_new_small R NumR l NoRate mu dt' H st' = Some st' /\
+  @energy_small R NumR l NoRate mu kappa dt' H st' = @energy_small R NumR l NoRate mu kappa dt H st.
+Proof. exact commit_invariance_small. Qed.
+
+(* the same for the 'seth hill' kinematics (additive state update as well), TensorMath.pow_symm being an ARBITRARY function pw
+   (opaque parameter of the regenerated strain kernel): nothing about the spectral power is needed *)
+Theorem C09_seth_hill_history_invariants : forall pw (l : @law R) (r : @rate R) mu, 0 < mu -> rate_admissible r ->
+  forall (steps : list (@m9 R * R)) (st : @tstate R) sts, law_admissible l (fst st) -> List.Forall (fun p => 0 < snd p) steps ->
+  @history_add R NumR (strain_seth_hill pw) l r mu steps st = Some sts ->
+  forall k, (k < length sts)%nat ->
+    fst (nth k (st :: sts) st) <= fst (nth (S k) (st :: sts) st) /\ tr9 (snd (nth (S k) (st :: sts) st)) = tr9 (snd st).
+Proof. exact seth_hill_history_invariants. Qed.
+Theorem C09_seth_hill_commit_invariance : forall pw (l : @law R) mu kappa dt dt' H (st st' : @tstate R),
+  0 < mu -> law_admissible l 0 -> 0 < law_Y0 l -> 0 <= fst st ->
+  nondegenerate (strain_seth_hill pw H st) -> nondegenerate (strain_seth_hill pw H st') ->
+  @state_new_add R NumR (strain_seth_hill pw) l NoRate mu dt H st = Some st' ->
+  strain_seth_hill pw H st' = sub9 (strain_seth_hill pw H st) (smul9 (fst st' - fst st) (flowdir (strain_seth_hill pw H st))) /\
+  trial_mises mu (strain_seth_hill pw H st') - @h_flow R NumR l (fst st') <= @tolY R NumR l /\
+  @state_new_add R NumR (strain_seth_hill pw) l NoRate mu dt' H st' = Some st' /\
+  @energy_add R NumR (strain_seth_hill pw) l NoRate mu kappa dt' H st' = @energy_add R NumR (strain_seth_hill pw) l NoRate mu kappa dt H st.
+Proof. exact commit_invariance_seth_hill. Qed.
+
 (* NOT PROVED: (a) "the update never returns NaN" -- false of the faithful model: the C17 root finder can hit its iteration cap
    (C17_cap_refuted, finding F7; inside the J2 update: F13); every theorem above is conditional on `= Some d`.  Flat hardening
    (perfect plasticity, saturated Voce) is NOT excluded: there the residual at the upper bracket end is within the tolerance and
-   the repaired root finder returns that end (C17_result_contract, end-point rule; finding F12 fixed by 8aadfbe).  (b) the rate-sensitivity potential's
-   derivative/monotonicity (same shape as the power law; covered by the correspondence only).  (c) the equivalence of the scalar
-   history with the tensor history for finite-deformation kinematics (logarithmic strain, exp_symm push-forward) -- needs the
-   spectral tensor functions; C09_isochoric assumes Jacobi's formula for exp_symm; tied by L2 on the code.  (d) equality of
-   energy/stress before and after committing the state beyond the scalar statement C09_idempotent_rate_independent. *)
+   the repaired root finder returns that end (C17_result_contract, end-point rule; finding F12 fixed by 8aadfbe).
+   (b) CLOSED (round 3): the rate-sensitivity potential's derivative / one-sided derivative at eqps_old / monotonicity are
+   C09_rate_flow, C09_rate_flow_at_old, C09_rate_monotone; the rate-sensitive update and minimality are
+   C09_update_rate_sensitive_laws, C09_variational_rate_sensitive_laws.  Tied by correspondence only: jax.grad of the regenerated
+   energy IS the written-out h_flow + k_flow (stream `flow_stress`).
+   (c) scalar <-> tensor history: CLOSED for the two kinematics with an additive state update: 'small deformations'
+   (C09_tensor_residual_is_scalar_residual, C09_small_history_invariants; tensor model tied by the stream `tensor_small`) and
+   'seth hill' (C09_seth_hill_*: same update path, regenerated strain kernel with pow_symm arbitrary; not executed at binary64).
+   Still NOT proved for 'large deformations' (multiplicative update Fp' = exp_symm(d N) Fp): needs log_sqrt_symm / exp_symm (opaque
+   parameters of the regenerated strain kernel) with the functional-calculus laws exp(A) exp(B) = exp(A + B) for commuting symmetric
+   A, B, inv(exp A) = exp(-A), log_sqrt_symm(exp(2 B)) = B; with these Fe' = Fe exp(-d N), Ce' = exp(-d N) Ce exp(-d N)
+   = exp(2 (Ee_trial - d N)) because N is a multiple of dev(Ee_trial), hence Ee' = Ee_trial - d N and the additive-case theorems carry
+   over.  Not done (those laws are what C10/C12 check for the code's eigen-decomposition route).
+   C09_isochoric assumes Jacobi's formula for exp_symm; finite-deformation histories are tied by L2 on the code.
+   (d) energy before/after committing: CLOSED for 'small deformations' and 'seth hill' (C09_small_commit_invariance,
+   C09_seth_hill_commit_invariance, clause (iv)); open for 'large deformations' (see (c)); the STRESS clause is proved
+   only in the form "same elastic strain, hence same elastic stress 2 mu dev(Ee) + kappa tr(Ee) I" ((i) and (iii)); that jax.grad of the
+   energy w.r.t. the displacement gradient BEFORE committing equals that tensor (envelope argument: d(potential)/d(eqps) = 0 at the root,
+   N:dN = 0) is not proved -- tested by L2 (commit_invariance, dP). *)
 
 Example C09_nonvacuous :
   (forall x y : R, x <= y -> @h_flow R NumR (Linear 1 2) x <= @h_flow R NumR (Linear 1 2) y) /\
   (@is_yielding R NumR (fun e => @h_flow R NumR (Linear 1 2) e) (1 / 10) 3 0 = true) /\
   @delta_eqps_gen R NumR (fun _ => 1) (fun _ => 0) 1 (1 / 10) 1 0 = Some 0.
 Proof. exact nonvacuous_C09. Qed.
+Example C09_rate_nonvacuous :
+  @k_flow R NumR (Rate 2 1 1) 1 0 1 = 2 /\ @k_energy R NumR (Rate 2 1 1) 1 0 1 = 1 /\
+  law_admissible (Linear 1 2) 0 /\ law_admissible (Voce 1 2 (1 / 10)) 0 /\ law_admissible (PowerLaw 1 4 (1 / 100)) 0.
+Proof. exact nonvacuous_C09_rate. Qed.
+Example C09_tensor_nonvacuous :
+  nondegenerate (1, 0, 0, 0, 0, 0, 0, 0, 0) /\ law_admissible (Linear 1 2) 0 /\ rate_admissible (Rate 1 2 3) /\
+  @state_new_small R NumR (Linear 1 2) NoRate 1 1 (0, 0, 0, 0, 0, 0, 0, 0, 0) (0, (0, 0, 0, 0, 0, 0, 0, 0, 0))
+  = Some (0 + 0, add9 (0, 0, 0, 0, 0, 0, 0, 0, 0) (smul9 0 (flowdir (strain_small (0, 0, 0, 0, 0, 0, 0, 0, 0) (0, (0, 0, 0, 0, 0, 0, 0, 0, 0)))))).
+Proof. exact nonvacuous_C09_tensor. Qed.
+Example C09_tensor_residual_nonvacuous : forall (mu eo : R) (E : @m9 R),
+  exists DelT D2T : R -> R, (forall e, is_derive (fun x => @elastic_along R NumR mu E eo x) e (DelT e)) /\ (forall e, is_derive DelT e (D2T e)).
+Proof. exact tensor_residual_nonvacuous. Qed.
 
 Print Assumptions C09_flow_direction.
 Print Assumptions C09_irreversible.
@@ -118,3 +242,7 @@ Print Assumptions C09_yield_consistent.
 Print Assumptions C09_variational.
 Print Assumptions C09_idempotent_rate_independent.
 Print Assumptions C09_isochoric.
+Print Assumptions C09_update_rate_sensitive_laws.
+Print Assumptions C09_variational_rate_sensitive_laws.
+Print Assumptions C09_small_history_invariants.
+Print Assumptions C09_small_commit_invariance.
